@@ -154,6 +154,40 @@ def run(facts, rep):
             rep.violation(R, key, "%s::is_data_valid_for does not compare every residue with its modulus over the full "
                           "(polynomials x) components x coefficients nest%s: an out-of-range residue can pass validation" %
                           (ty, (": " + detail) if detail else ""), facts.loc(p))
+    # (bounds) the BGV correction factor must be a unit below t: the refusal excludes cf == 0 and cf >= t
+    pm = impl_of(facts, "text::Ciphertext", "is_metadata_valid_for")
+    if rep.anchor(R, "text::Ciphertext::is_metadata_valid_for", pm is not None):
+        rep.fn(pm)
+        body = facts.hir[pm]
+        defs = Defs(body)
+
+        def names(e):
+            return {y.get("name") or (callee(y) or {}).get("name") for y in defs.closure(e) if y.get("k") in ("Path", "MCall", "Call")}
+        found = []
+        for x in walk(body):
+            if x.get("k") == "Bin" and x.get("op") in (">", ">=", "<", "<="):
+                na, nb = names(x["a"]), names(x["b"])
+                if "correction_factor" in na and "plain_modulus" in nb:
+                    found.append((x, x["op"]))
+                elif "correction_factor" in nb and "plain_modulus" in na:
+                    found.append((x, {"<": ">", "<=": ">=", ">": "<", ">=": "<="}[x["op"]]))
+        key = "Ciphertext/bounds/correction_factor"
+        if not found:
+            rep.violation(R, key, "Ciphertext::is_metadata_valid_for never compares the correction factor with the plain "
+                          "modulus: a factor of t or more (not a unit modulo t) is accepted", facts.loc(pm))
+        elif all(op == ">=" for _, op in found):
+            zero = any(x.get("k") == "Bin" and x.get("op") == "==" and "correction_factor" in names(x["a"]) | names(x["b"]) and
+                       any(strip(z).get("v") == "0" for z in (x["a"], x["b"])) for x in walk(body))
+            if zero:
+                rep.ok(R, key, "refuses cf == 0 and cf >= t", facts.loc(pm, found[0][0]))
+            else:
+                rep.violation(R, key, "the correction factor 0 is not refused", facts.loc(pm, found[0][0]))
+        elif any(op == ">" for _, op in found):
+            rep.violation(R, key, "the correction factor is refused only when it EXCEEDS t: cf == t (0 modulo t, not a unit) "
+                          "passes validation, and products / mod-switches of such an operand carry correction factor 0",
+                          facts.loc(pm, found[0][0]))
+        else:
+            rep.unresolved(R, key, "comparison of the correction factor with t has an unmodelled form", facts.loc(pm, found[0][0]))
     # (cover) Ciphertext
     t = facts.types.get("text::Ciphertext")
     if rep.anchor(R, "text::Ciphertext", t is not None):
